@@ -6,6 +6,14 @@ props = [json.loads(l) for l in open(os.path.join(V, "properties.jsonl"))]
 
 EVAL_NOTE = "trusted: TLC; the renderer's canonical layout and path->line map; H2 hook events (emitted after each VM state change in the single evaluator goroutine); program families are bounded (sizes in the evidence)"
 CHECKS = {
+ "C07": dict(
+   technique="ZnEval TLA+ machine (heap facet: deep copy on bind, reference objects, invariant FreshOnBind) model-checked by TLC over copy/mutate histories; displayed snapshots after every step compared with the real interpreter",
+   level="Copy/mutate histories over names A..D from a nested list or a dictionary of lists (declare-copy, multi-declare, assign, element/key assignment of collections, five mutation kinds through any name at nesting 1-2, mutation through a 遍历 loop variable), exhaustive for <= 2 steps and seeded random for 3-5 steps (2500 quick / 40000 thorough), plus object-sharing, per-instance-default and literal-freshness programs: every variable is displayed after every step and must equal the snapshot of the spec's heap machine; TLC checks FreshOnBind (the freshly bound slot shares no list/dict cell with any other slot) in every state.",
+   note=EVAL_NOTE + "; sharing is observed through displayed values, not pointer identity", ref="5 C07"),
+ "C08": dict(
+   technique="ZnEval TLA+ machine (call/object facet: ICall/IMCall/INew/IRet, 其, 得到) model-checked by TLC over an arity x argument matrix, recursion, object programs and seeded random call graphs; behaviours compared event-by-event with the real interpreter",
+   level="Declared arity 0..3 x actual argument count 0..4 with probe-call arguments (evaluation order and once-ness visible in the display trace; a mismatch must run none of the body), with and without 得到; nested argument calls; direct and mutual recursion; constructors, methods calling methods of the same/another object with 其 restored afterwards, chained 以X（a）、（b）, per-object isolation and defaults, unknown method/property/class errors; 1500 (quick) seeded random acyclic call graphs. Statement trace with call depth, display trace and outcome must equal the machine's.",
+   note=EVAL_NOTE, ref="5 C08"),
  "C06": dict(
    technique="TLA+ environment spec (ZnVM) open-client model checking + replay of every short history through runtime.Scope/VM; TLC trace validation (Trace_ZnVM) of operation logs recorded from the real VM; ZnEval machine over a scoping program family",
    level="(1) TLC enumerates every history of length 5 over begin/end/declare/declare-const/assign/lookup x 2 names + a predefined name x depth<=3 (391700; quick replays a seeded 120000) and each is stepped through the real runtime.Scope and runtime.VM comparing every reply; invariants and action properties (constants never change, end-scope restores, failed op is a no-op) are checked to length 9 with a VIEW. (2) Random histories of length 400-2000 are recorded from the real VM and validated line by line by TLC against Trace_ZnVM (action, reply, scope depth, live symbols). (3) ~70 scoping programs (every block kind, nesting, recursion, exception exits, constants/inputs/得到/predefined names) must behave as the ZnEval machine says, including scope depth consistency at every statement and an empty symbol table at the end.",
